@@ -127,18 +127,17 @@ func NewEnvManager(tm *task.Manager, incomingEventCh chan event.Event) *Manager 
 					// If we got a TasksReleasedEvent, it must be matched with a pending
 					// environment teardown.
 
-					instance.mu.RLock()
+					// The entry is taken out of the map in the critical section that looks it up:
+					// once the event is handed over, TeardownEnvironment may register the channel
+					// for its next release round, and that entry must stay.
+					instance.mu.Lock()
 					thisEnvCh, ok := instance.pendingTeardownsCh[typedEvent.GetEnvironmentId()]
-					instance.mu.RUnlock()
+					delete(instance.pendingTeardownsCh, typedEvent.GetEnvironmentId())
+					instance.mu.Unlock()
 
 					if ok {
 						thisEnvCh <- typedEvent
-
-						instance.mu.Lock()
 						close(thisEnvCh)
-						delete(instance.pendingTeardownsCh, typedEvent.GetEnvironmentId())
-						instance.mu.Unlock()
-
 					} else {
 						// If there is no pending environment teardown, it means that the released task stopped
 						// unexpectedly. In that case, the environment should get torn-down only if the task
@@ -154,11 +153,7 @@ func NewEnvManager(tm *task.Manager, incomingEventCh chan event.Event) *Manager 
 						}
 						if releaseCriticalTask {
 							thisEnvCh <- typedEvent
-
-							instance.mu.Lock()
 							close(thisEnvCh)
-							delete(instance.pendingTeardownsCh, typedEvent.GetEnvironmentId())
-							instance.mu.Unlock()
 						}
 					}
 
